@@ -578,8 +578,12 @@ __strfd_card(
 			pd = d->d;
 		} else {
 			/* must be bizda now */
-			pd = dt_get_bday_q(
-				that, __make_bizda_param(s.ab, BIZDA_ULTIMO));
+			with (int bd = dt_get_bday_q(
+				      that,
+				      __make_bizda_param(s.ab, BIZDA_ULTIMO))) {
+				/* no count there (yet), that's nought */
+				pd = bd >= 0 ? bd : 0;
+			}
 		}
 		res = ui99topstr(
 			buf, bsz, pd, 2 - (s.pad == DT_SPPAD_OMIT), padchar(s));
